@@ -415,8 +415,24 @@ func c13Oracle(g *Gen, n int) {
 	}
 	off := g.Intn(stride)
 	g.st.OracleTags["enumerated"] = len(cases)
+	// the concurrent shapes are a small part of the enumeration: give them their own budget (about n/10 scenarios)
+	var conc []c13Case
 	for i, c := range cases {
+		if strings.HasPrefix(c.tag, "concurrent/") {
+			conc = append(conc, c)
+			continue
+		}
 		if i%stride == off {
+			c13Judge(g, c)
+		}
+	}
+	cstride := 1
+	if want := n/10 + 1; len(conc) > want {
+		cstride = (len(conc) + want - 1) / want
+	}
+	coff := g.Intn(cstride)
+	for i, c := range conc {
+		if i%cstride == coff {
 			c13Judge(g, c)
 		}
 	}
